@@ -171,7 +171,10 @@ func init() {
 		Old: "if v, ok := item.Binding.(*js.Var); !ok && item.Default != nil || ok && 1 < v.Uses {", New: "if _, ok := item.Binding.(*js.Var); !ok && item.Default != nil {",
 		Rule: "R01.50", Construct: "only when the variable is unused"})
 	mutant(&Mutant{Name: "c03-colgroup-end-tag-dropped-before-col", Property: "C03", File: "html/html.go",
-		Old: "keepTag = next.TokenType == html.StartTagToken && (next.Hash == Colgroup || next.Hash == Col)", New: "keepTag = next.TokenType == html.StartTagToken && next.Hash == Colgroup",
+		Old: "keepTag = next.TokenType == html.StartTagToken && (next.Hash == Colgroup || next.Hash == Col || next.Hash == Template)", New: "keepTag = next.TokenType == html.StartTagToken && next.Hash == Colgroup",
+		Rule: "R03.23", Construct: "in front of colgroup and col"})
+	mutant(&Mutant{Name: "c03-colgroup-end-tag-dropped-before-template", Property: "C03", File: "html/html.go",
+		Old: "keepTag = next.TokenType == html.StartTagToken && (next.Hash == Colgroup || next.Hash == Col || next.Hash == Template)", New: "keepTag = next.TokenType == html.StartTagToken && (next.Hash == Colgroup || next.Hash == Col)",
 		Rule: "R03.23", Construct: "in front of colgroup and col"})
 	mutant(&Mutant{Name: "c19-named-hidden-directory-skipped", Property: "C19", File: "cmd/minify/main.go",
 		Old: "!hidden && d.Name()[0] == '.' && input != dir {", New: "!hidden && d.Name()[0] == '.' {",
